@@ -215,6 +215,8 @@ def requests():
     add("py/mono7", model="PLUGIN", q=Q7, pars=py)
     add("py/pd", model="PLUGIN", q=Q3, pars=dict(py, radius_pd=0.2, radius_pd_n=15))
     add("py/pd-other", model="PLUGIN", q=Q3, pars=dict(py, radius=60.0, radius_pd=0.1, radius_pd_n=4, radius_pd_type="uniform"))
+    add("py/empty", model="PLUGIN", q=Q3, pars=dict(py, radius=-3.0, radius_pd=0.1, radius_pd_n=5), tag="edge")
+    add("py/onepoint", model="PLUGIN", q=Q3, pars=dict(py, radius_pd=2.0, radius_pd_n=2, radius_pd_nsigma=1.0), tag="edge")
     add("py/Fq", model="PLUGIN", q=Q3, via="call_Fq", pars=dict(py, radius_effective_mode=0))
     add("py/2d", model="PLUGIN", q=QXY, pars=py)
     add("py/sasview", model="PLUGIN", q=Q3, via="sasview", pars=dict(py, **{"radius.width": 0.1, "radius.npts": 6}))
@@ -412,7 +414,7 @@ def gen_history(rng, reqs, h):
         ops += [["eval", "cylinder/2djit"], ["eval", "cylinder/mag2d"], ["eval", "cylinder/2d"],
                 ["release_kernel", "cylinder"], ["eval", "cylinder/2d"]]
     else:
-        ops += [["eval", "py/pd"], ["eval", "py/pd-other"], ["eval", "py/mono"], ["release_model", "PLUGIN"],
+        ops += [["eval", "py/empty"], ["eval", "py/pd"], ["eval", "py/empty"], ["eval", "py/onepoint"], ["eval", "py/pd-other"], ["eval", "py/mono"], ["release_model", "PLUGIN"],
                 ["eval", "py/mono"], ["reload", "sphere"], ["eval", "sphere/mono3"], ["clone", "cylinder/sasview-pd"]]
     return ops
 
